@@ -3,15 +3,27 @@
 (* Trace specification for C13: what the real loader (amd/insts/hsaco.go)  *)
 (* returned, recorded by harness/cmd/c13, judged by HsacoOps!Load.         *)
 (*                                                                         *)
-(*  Reset                     start of a job                               *)
-(*  File  symtab secs syms    the code object as debug/elf describes it    *)
-(*                            (section table, symbol table, bytes of       *)
-(*                            .text/.rodata): becomes the abstract file    *)
-(*  Load  name api ver data sym m                                          *)
+(*  Reset                     start of a job (one process may run many)    *)
+(*  File  [buf cv] symtab secs syms                                        *)
+(*                            image buffer buf (default 0) holds, from now *)
+(*                            on, the code object that debug/elf describes *)
+(*                            so (section table, symbol table, bytes of    *)
+(*                            .text/.rodata): a new image was copied to    *)
+(*                            the start of the reused buffer, or the image *)
+(*                            was patched in place                         *)
+(*  Load  [buf k] name api ver data sym m                                  *)
 (*                            LoadKernelCodeObjectFrom{Bytes,FS,ELF}(name) *)
-(*                            returned this kernel code object             *)
-(*  Fatal name                the loader ended the process (log.Fatal)     *)
+(*                            on the buffer's current content returned     *)
+(*                            this kernel code object (result number k)    *)
+(*  Still k ver data sym m    result k, looked at again later              *)
+(*  Scribble k                the caller overwrote its result k            *)
+(*  Fatal [buf] name          the loader ended the process (log.Fatal)     *)
 (*  Panic name msg            the loader panicked: never accepted          *)
+(*                                                                         *)
+(* History: a Load is judged against what the buffer holds at the time of  *)
+(* the call and nothing else - the trace machine keeps no memory of        *)
+(* earlier loads that could explain a result; a Still line must repeat the *)
+(* Load line of that result field by field.                                *)
 (*                                                                         *)
 (* A Load line is accepted iff every logged field equals what Load(file,   *)
 (* name) gives.  "As implemented" deviations (DESIGN.md 2.2) are separate  *)
@@ -27,8 +39,9 @@ TraceLog == ndJsonDeserialize("trace.ndjson")
 N == Len(TraceLog)
 
 VARIABLES l,      \* position in TraceLog
-          file    \* the abstract file of the current job
-tvars == <<l, file>>
+          bufs,   \* image buffer id -> the abstract file it holds NOW (ordinary jobs: buffer 0)
+          kept    \* result number -> the Load line that produced it, for results the caller still holds unmodified
+tvars == <<l, bufs, kept>>
 
 ASSUME HWInit
 
@@ -50,7 +63,10 @@ AccOf(r2) == <<Bits(r2[2], 7, 7), Bits(r2[2], 8, 8), Bits(r2[2], 9, 9), Bits(r2[
                Bits(r2[2], 0, 0)>>
 
 \* names of the fields in which the logged result differs from the expected one
-Diff(want, e) ==
+BufOf(e) == IF Has(e, "buf") THEN e.buf ELSE 0
+Cur(e) == IF BufOf(e) \in DOMAIN bufs THEN bufs[BufOf(e)] ELSE NoFile
+
+Diff(file, want, e) ==
   (IF want.ver # e.ver THEN {"ver"} ELSE {})
   \cup (IF want.data # e.data THEN {"data"} ELSE {})
   \cup (IF want.sym = 0 THEN (IF e.sym.x # -1 THEN {"sym"} ELSE {})
@@ -59,39 +75,65 @@ Diff(want, e) ==
   \cup {fld \in MetaFields : want.meta[fld] # e.m[fld]}
   \cup (IF e.m.acc # AccOf(e.m.r2) THEN {"acc"} ELSE {})
 
-TInit == l = 1 /\ file = NoFile
+Empty == [x \in {} |-> 0]
+TInit == l = 1 /\ bufs = Empty /\ kept = Empty
 
-TReset == Is("Reset") /\ file' = NoFile
+TReset == Is("Reset") /\ bufs' = Empty /\ kept' = Empty
 
+\* the buffer holds this image from now on (a new image was copied into it, or it was patched in place);
+\* results handed out earlier are not touched by that
 TFile == /\ Is("File")
-         /\ LET f == FileOf(Ev) IN WellFormed(f) /\ file' = f
+         /\ LET f == FileOf(Ev) IN WellFormed(f) /\ bufs' = (BufOf(Ev) :> f) @@ bufs
+         /\ UNCHANGED kept
 
+\* A load is judged against the CURRENT content of the buffer it was given, whatever was loaded before, whatever
+\* the buffer held before and whatever callers did to earlier results.
 TLoad ==
   /\ Is("Load") /\ ~Has(Ev, "nil") /\ ~Has(Ev.m, "nil")
-  /\ LET want == LoadWith(file, Ev.name, 44)
+  /\ LET file == Cur(Ev)
+         want == LoadWith(file, Ev.name, 44)
          impl == LoadWith(file, Ev.name, 40)
-     IN \/ want.ok /\ Diff(want, Ev) = {}
+     IN \/ want.ok /\ Diff(file, want, Ev) = {}
         \/ /\ "KdRsrcOffByFour" \in Deviations /\ want.ok /\ impl.ok
-           /\ Diff(want, Ev) # {} /\ Diff(impl, Ev) = {}
+           /\ Diff(file, want, Ev) # {} /\ Diff(file, impl, Ev) = {}
            /\ Dev("KdRsrcOffByFour")
-        \/ /\ want.ok /\ Diff(want, Ev) # {}
-           /\ ~("KdRsrcOffByFour" \in Deviations /\ impl.ok /\ Diff(impl, Ev) = {})
-           /\ PrintT(<<"MISMATCH", l, Diff(want, Ev)>>)
+        \/ /\ want.ok /\ Diff(file, want, Ev) # {}
+           /\ ~("KdRsrcOffByFour" \in Deviations /\ impl.ok /\ Diff(file, impl, Ev) = {})
+           /\ PrintT(<<"MISMATCH", l, Diff(file, want, Ev)>>)
            /\ FALSE
         \/ /\ ~want.ok                                   \* the loader returned something for a name it must refuse
            /\ PrintT(<<"MISMATCH", l, {"loaded_" \o want.why}>>)
            /\ FALSE
-  /\ UNCHANGED file
+  /\ kept' = IF Has(Ev, "k") THEN (Ev.k :> Ev) @@ kept ELSE kept
+  /\ UNCHANGED bufs
 
 \* the loader refuses a name that is not a kernel of the file, and "" when there are several
 TFatal ==
   /\ Is("Fatal")
-  /\ LET want == LoadWith(file, Ev.name, 44)
+  /\ LET want == LoadWith(Cur(Ev), Ev.name, 44)
      IN \/ ~want.ok /\ want.why \in {"notfound", "ambiguous"}
         \/ want.ok /\ PrintT(<<"MISMATCH", l, {"refused"}>>) /\ FALSE
-  /\ UNCHANGED file
+  /\ UNCHANGED <<bufs, kept>>
 
-TNext == TReset \/ TFile \/ TLoad \/ TFatal
+\* A result the caller still holds is a value of its own: later loads, new buffer contents and what other callers do
+\* to THEIR results leave it as it was returned.
+ResultFields == {"ver", "data", "sym", "m"}
+TStill ==
+  /\ Is("Still")
+  /\ \/ /\ Ev.k \in DOMAIN kept
+        /\ LET changed == {fld \in ResultFields : kept[Ev.k][fld] # Ev[fld]}
+           IN \/ changed = {}
+              \/ changed # {} /\ PrintT(<<"MISMATCH", l, {"changed_" \o fld : fld \in changed}>>) /\ FALSE
+     \/ Ev.k \notin DOMAIN kept /\ PrintT(<<"MISMATCH", l, {"unknown_result"}>>) /\ FALSE
+  /\ UNCHANGED <<bufs, kept>>
+
+\* the caller overwrites the object it was handed: from now on nothing is expected of THAT result
+TScribble ==
+  /\ Is("Scribble")
+  /\ kept' = [k \in DOMAIN kept \ {Ev.k} |-> kept[k]]
+  /\ UNCHANGED bufs
+
+TNext == TReset \/ TFile \/ TLoad \/ TFatal \/ TStill \/ TScribble
 TSpec == TInit /\ [][TNext]_tvars
 
 Mark == HWNote(l)                 \* CONSTRAINT: records progress
